@@ -292,6 +292,9 @@ pub fn width_alphabet() -> Vec<WCall> {
         t(NItem::Full(ID_M, vec![NItem::Full(ID_N, vec![NItem::Full(ID_K, vec![NItem::Full(ID_L, vec![NItem::Leaf(ID_LB, Val::B(vec![0x3c; 120]))])])])]), WOpt::Default),
         t(NItem::Start(ID_EBML), WOpt::Default),
         t(NItem::End(ID_EBML), WOpt::Default),
+        // a Full whose children contain an End of its own master: rejected, and nothing of it may reach the destination
+        t(NItem::Full(ID_EBML, vec![NItem::End(ID_EBML)]), WOpt::Default),
+        t(NItem::Full(ID_M, vec![NItem::Leaf(ID_MU, Val::U(5)), NItem::End(ID_M)]), WOpt::Default),
         // a raw tag (id outside the specification) through write(), not write_raw()
         t(NItem::Raw(0xf3, vec![7, 8]), WOpt::Default),
         WCall::Flush,
